@@ -42,6 +42,15 @@ struct Walk {
 	bool domain_ok = true; // every payload record lies inside the tables' domain
 	size_t off = 0, olen = 0; // offending PDU (stream offset relative to exchange start, length as received)
 	std::set<int> codes; // error codes acceptable for the report
+	// payload violations are detected when the records are applied, and the statements leave the order between the three
+	// record families open: the first violation of each family is an acceptable "offending PDU" (the primary one above is
+	// the first in the order IPv4, IPv6, router keys)
+	struct Alt {
+		std::string why;
+		size_t off, olen;
+		std::set<int> codes;
+	};
+	std::vector<Alt> alts;
 	bool need_report = false;
 	bool downgraded = false; // first-PDU downgrade applies
 	int version_after = 1;
